@@ -663,7 +663,11 @@ func faultScenario(c *FaultCase, o *sim.Outcome, arm bool) (*Sess, [2]int) {
 	s := newSess(&SessScript{Cfg: cfg}, o)
 	w := s.W
 	if arm {
-		w.P[c.Who].R.FailAt, w.P[c.Who].R.FailMode = c.K, c.Mode
+		w.P[c.Who].R.FailAt, w.P[c.Who].R.FailMode = c.K, c.Mode%3
+		if c.Mode >= 3 {
+			// only this one read fails: what went wrong stays wrong, and the genuine traffic that follows meets it
+			w.P[c.Who].R.FailFor = 1
+		}
 	}
 	all := func() { s.Exec(SOp{K: "flush"}) }
 	switch c.Scn {
@@ -672,6 +676,30 @@ func faultScenario(c *FaultCase, o *sim.Outcome, arm bool) (*Sess, [2]int) {
 		all()
 		s.Send(0, s.Text(0, 5, 0))
 		s.Send(1, s.Text(1, 5, 0))
+		all()
+	case 2: // SMP runs that are restarted and answered late, by either side
+		w.Query(0)
+		all()
+		w.SMPStart(0, "", []byte("s"))
+		all()
+		w.SMPStart(0, "again?", []byte("s")) // restart while the first run is in progress
+		s.asked[1] = true
+		w.SMPAnswer(1, []byte("s"))
+		all()
+		w.SMPStart(1, "", []byte("t"))
+		s.DeliverQ(1, 0)
+		s.asked[0] = true
+		w.SMPAnswer(0, []byte("t"))
+		w.SMPStart(1, "", []byte("t")) // the initiator restarts while the answer is in flight
+		all()
+		s.asked[0] = true
+		w.SMPAnswer(0, []byte("t"))
+		all()
+		w.SMPAbort(0)
+		w.SMPStart(0, "", []byte("u"))
+		all()
+		s.asked[1] = true
+		w.SMPAnswer(1, []byte("u"))
 		all()
 	default: // rotations with a held message, SMP, extra key, End
 		w.Query(1)
@@ -728,12 +756,12 @@ func TestProp_C13_Faults(t *testing.T) {
 	si, sn := sim.Shard()
 	idx := 0
 	for _, v := range []int{3, 2} {
-		for scn := 0; scn < 2; scn++ {
+		for scn := 0; scn < 3; scn++ {
 			_, reads := faultScenario(&FaultCase{V: v, Scn: scn}, &sim.Outcome{}, false)
 			for who := 0; who < 2; who++ {
 				for k := 0; k <= reads[who]; k++ {
-					for mode := 0; mode < 3; mode++ {
-						if !sim.Thorough() && mode == 2 {
+					for mode := 0; mode < 5; mode++ {
+						if !sim.Thorough() && (mode == 2 || mode == 4) {
 							continue
 						}
 						idx++
